@@ -11,6 +11,8 @@
         sp <mat>, landsp <mat>            Bellman-Ford specification
         full fibc <mat>, land fibc <mat>  Fibonacci flavour over the CONCRETE heap model of C16
         trace fibc <n> 2 u v u v ...      its distance-callback calls (one thread), ltrace fibc likewise
+        full pqc <mat>, land pqc <mat>    priority-queue flavour over the CONCRETE binary heap of libstdc++
+        trace pqc / ltrace pqc            its distance-callback calls (one thread)
    C <graph> F <N*N obs> [O <nl*N obs>]   spec decision procedures on OBSERVED matrices
         (obs = integer or "inf"):  "full ok|fail", "land ok|fail"
    R <graph> S <src> P <0|1> <fl>          one row (row_fl fl ... src src): "row <1 x N mat>"
@@ -114,6 +116,12 @@ let handle line =
           out "full fibc" (full_matrix_fibc g.nbrs w nn);
           out_trace "trace fibc" (full_trace_fibc g.nbrs w nn);
           out_events g.nbrs w nn;
+          out "full pqc" (full_matrix_pqc g.nbrs w nn);
+          out_trace "trace pqc" (full_trace_pqc g.nbrs w nn);
+          if g.lm <> [] then begin
+            out "land pqc" (landmark_matrix_pqc g.nbrs w nn g.lm);
+            out_trace "ltrace pqc" (landmark_trace_pqc g.nbrs w nn g.lm)
+          end;
           if g.lm <> [] then begin
             out "land pq0" (landmark_matrix_fixed PQ g.nbrs w pick_first_min nn g.lm);
             out "land fib0" (landmark_matrix_fixed FIB g.nbrs w pick_first_min nn g.lm);
@@ -144,9 +152,11 @@ let handle line =
           let w = table_w g.w and nn = nat_of_int g.n in
           out "full pq0" (full_matrix PQ g.nbrs w pick_first_min nn);
           out "full fibc" (full_matrix_fibc g.nbrs w nn);
+          out "full pqc" (full_matrix_pqc g.nbrs w nn);
           if g.lm <> [] then begin
             out "land pq0" (landmark_matrix_fixed PQ g.nbrs w pick_first_min nn g.lm);
-            out "land fibc" (landmark_matrix_fibc g.nbrs w nn g.lm)
+            out "land fibc" (landmark_matrix_fibc g.nbrs w nn g.lm);
+            out "land pqc" (landmark_matrix_pqc g.nbrs w nn g.lm)
           end
         | "E" ->
           let g = read_graph () in
